@@ -232,13 +232,17 @@ func runScenario(sc scenario) outcome {
 			continue
 		}
 		ident := ev.Subjects["loggedAs"] + "/" + ev.Subjects["pid"]
+		shown := ident
+		if len(shown) > 60 {
+			shown = fmt.Sprintf("%s...(%d bytes)/%s", shown[:40], len(ev.Subjects["loggedAs"]), ev.Subjects["pid"])
+		}
 		switch ev.Type {
 		case "UserLogin":
 			seenLogin[ident] = true
 		case "UserAction":
 			out.Got++
 			if !seenLogin[ident] {
-				add("output:action-before-login", fmt.Sprintf("write %d: UserAction with identity %s appears before (or without) the UserLogin of that login", i, ident))
+				add("output:action-before-login", fmt.Sprintf("write %d: UserAction with identity %s appears before (or without) the UserLogin of that login", i, shown))
 			}
 			k := ev.Metadata.AuditID + "@" + ev.LoggedAt
 			seenEvent[k]++
